@@ -234,6 +234,9 @@ func relayNumber(addr string) int {
 	if addr == RelayAddr(UnusableRelay) {
 		return UnusableRelay
 	}
+	if addr == RelayAddr(RejectedRelay) {
+		return RejectedRelay
+	}
 	return -1
 }
 
